@@ -71,11 +71,85 @@ class ExprBuilder:
         self.onstack = set()
         self.place_hook = place_hook
         self.cur_bb = None
+        self.cur_idx = None
 
-    def at(self, bb):
-        """set the location for operands evaluated directly by the caller"""
+    def at(self, bb, idx=None):
+        """set the location (block, statement index; None = the terminator) for operands
+        evaluated directly by the caller"""
         self.cur_bb = bb
+        self.cur_idx = idx
         return self
+
+    def _pos(self, bb, idx):
+        return (bb, len(self.body.blocks[bb]["stmts"]) if idx in (None, "term") else idx)
+
+    def reaching_def(self, l, bb, idx):
+        """the unique definition of multi-def local `l` reaching the use at (bb, idx), if the
+        definitions that can reach it reduce to one; else None"""
+        b = self.body
+        ds = [d for d in b.defs().get(l, []) if not b.is_cleanup(d[0])]
+        if 1 <= l <= b.argc:
+            return None  # the initial (parameter) value is also a definition
+        up = self._pos(bb, idx)
+        dom = b.dominators()
+
+        def before(d):
+            dp = self._pos(d[0], d[1])
+            if dp[0] == up[0]:
+                return dp[1] < up[1]
+            return dp[0] in dom.get(up[0], ())
+        cands = [d for d in ds if before(d)]
+        if not cands:
+            return None
+        # closest dominating def
+
+        def dpos(d):
+            return self._pos(d[0], d[1])
+        best = None
+        for d in cands:
+            okc = True
+            for o in cands:
+                if o is d:
+                    continue
+                op_, dp_ = dpos(o), dpos(d)
+                # o must come before d
+                if op_[0] == dp_[0]:
+                    if not op_[1] < dp_[1]:
+                        okc = False
+                elif op_[0] not in dom.get(dp_[0], ()):
+                    okc = False
+            if okc:
+                best = d
+        if best is None:
+            return None
+        bp = dpos(best)
+        # no other def may lie on a path best -> use
+        for o in ds:
+            if o is best:
+                continue
+            op_ = dpos(o)
+            if op_[0] == bp[0] and op_[0] == up[0]:
+                if bp[1] < op_[1] < up[1]:
+                    return None
+                # same block but outside the window: could still be reached around a loop
+                if b.can_reach_nontrivial(bp[0], bp[0]):
+                    return None
+                continue
+            if op_[0] == bp[0]:
+                if op_[1] > bp[1] and (up[0] != bp[0]):
+                    return None
+                if b.can_reach_nontrivial(bp[0], bp[0]):
+                    return None
+                continue
+            if op_[0] == up[0] and op_[1] < up[1] and up[0] != bp[0]:
+                return None
+            # o in another block: on a path best.bb -> o.bb -> use.bb ?
+            if b.can_reach(bp[0], op_[0]) and b.can_reach(op_[0], up[0]):
+                # allowed only if every such path re-passes `best` afterwards: approximate by
+                # requiring that o.bb cannot reach use.bb while avoiding best.bb
+                if op_[0] != bp[0] and b.can_reach(op_[0], up[0], avoid={bp[0]}) or up[0] == bp[0]:
+                    return None
+        return best
 
     # ---- operands
     def op(self, o):
@@ -191,22 +265,40 @@ class ExprBuilder:
                 self.memo[l] = e
                 return e
         ds = [d for d in b.defs().get(l, []) if not b.is_cleanup(d[0])]
+        if len(ds) > 1 and self.cur_bb is not None and l not in self.onstack:
+            rd = self.reaching_def(l, self.cur_bb, self.cur_idx)
+            if rd is not None:
+                key = ("rd", l, rd[0], rd[1])
+                if key in self.memo:
+                    return self.memo[key]
+                if key not in self.onstack:
+                    self.onstack.add(key)
+                    saved = (self.cur_bb, self.cur_idx)
+                    try:
+                        self.cur_bb, self.cur_idx = rd[0], rd[1]
+                        e = self.call(rd[2]) if rd[1] == "term" else self.rvalue(rd[2]["rv"])
+                    finally:
+                        self.cur_bb, self.cur_idx = saved
+                        self.onstack.discard(key)
+                    self.memo[key] = e
+                    return e
+            return ("var", l, b.local_name(l))
         if len(ds) != 1 or l in self.onstack:
             e = ("var", l, b.local_name(l))
-            if l not in self.onstack:
+            if l not in self.onstack and self.cur_bb is None:
                 self.memo[l] = e
             return e
         self.onstack.add(l)
-        saved = self.cur_bb
+        saved = (self.cur_bb, self.cur_idx)
         try:
             bb, idx, item = ds[0]
-            self.cur_bb = bb
+            self.cur_bb, self.cur_idx = bb, idx
             if idx == "term":
                 e = self.call(item)
             else:
                 e = self.rvalue(item["rv"])
         finally:
-            self.cur_bb = saved
+            self.cur_bb, self.cur_idx = saved
             self.onstack.discard(l)
         self.memo[l] = e
         return e
@@ -214,13 +306,13 @@ class ExprBuilder:
     def def_exprs(self, l):
         """one expression per (non-cleanup) definition of local l"""
         out = []
-        saved = self.cur_bb
+        saved = (self.cur_bb, self.cur_idx)
         for bb, idx, item in self.body.defs().get(l, []):
             if self.body.is_cleanup(bb):
                 continue
-            self.cur_bb = bb
+            self.cur_bb, self.cur_idx = bb, idx
             out.append(self.call(item) if idx == "term" else self.rvalue(item["rv"]))
-        self.cur_bb = saved
+        self.cur_bb, self.cur_idx = saved
         return out
 
     def expand_all(self, e, limit=200):
@@ -696,9 +788,11 @@ def stores(body, eb=None):
     for bb, i, st in body.iter_stmts():
         if st["k"] != "assign" or not st["place"]["proj"]:
             continue
+        eb.at(bb, i)
         tgt = eb.place(st["place"])
         root, chain = root_of(tgt)
         out.append((bb, i, st, tgt, root, chain, eb.rvalue(st["rv"])))
+    eb.at(None)
     return out
 
 
